@@ -20,7 +20,15 @@ Definition post_opt (a : T) (x1 : list T) (b : T) (x2 : list T) (io : nat)
   | _ => False
   end.
 
-Ltac opt_ops := cbn [neqb nadd nsub nmul ndiv nopp of_Z nzero none_ Num_opt olift2 otest2 option_map].
+Ltac opt_ops := cbn [neqb nadd nsub nmul ndiv nopp of_Z nzero none_ Num_opt olift2 odiv otest2 option_map].
+(* divisions by the scalar occur only under the guard `a != 0` *)
+Ltac nonzero_divisors :=
+  repeat match goal with
+  | |- context [neqb ?k (of_Z 0)] =>
+      let E := fresh "Ez" in
+      destruct (neqb k (of_Z 0)) eqn:E;
+      [ apply nf_eqb in E; rewrite ?nf_of0 in E; exfalso; congruence | ]
+  end.
 Ltac same_operand :=
   try match goal with
   | H1 : ?s ?i = map Some ?x1, H2 : ?s ?i = map Some ?x2 |- _ =>
@@ -36,7 +44,7 @@ Ltac pointwise_opt H1 H2 L12 Lo :=
   match type of Lo with length ?z = _ =>
     destruct (nth3 x y z k L12 Lo) as [(u & v & w & E1 & E2 & E3) | (E1 & E2 & E3)]
   end end;
-  rewrite ?E1, ?E2, ?E3; opt_ops; try reflexivity; do 2 f_equal.
+  rewrite ?E1, ?E2, ?E3; opt_ops; nonzero_divisors; opt_ops; try reflexivity; do 2 f_equal.
 Ltac finish_opt H1 H2 L12 Lo :=
   norm_hyps;
   first
